@@ -23,7 +23,7 @@ def rule_TR1(rep, prog, ex):
             writers.setdefault(t.origin, []).append(t)
     allowed = {"dispatch_semaphore_signal", "dispatch_semaphore_wait", "_dispatch_semaphore_wait_slow", "dispatch_semaphore_create"}
     for o, ts in sorted(writers.items()):
-        rep.require(rid, o in allowed, ts[0].where, o, "unclassified-writer:%s" % o,
+        rep.classified(rid, o, o in allowed, ts[0].where, o, "unclassified-writer:%s" % o,
                     "%s writes dsema_value but is not one of the classified writers" % o, sample={"writer": o, "kind": ts[0].kind})
     def one(name, rmw, order_ok, what):
         ts = [t for t in writers.get(name, []) if t.kind == "rmw"]
